@@ -2,6 +2,13 @@
 """writes MANIFEST.json from the table below (keeps it valid and in one place)"""
 import json, os
 CHECKS = {
+ 'C11': dict(technique='path-sensitive typestate over coap_add_observer (look-up / delete before create), coap_notify_observers (limit test before NON, counter follows type) and the RST arm of coap_dispatch (R-OBS-REPLACE / -CON / -RST)',
+             text='Decides three structural clauses that the statement of C11 names: a re-registration replaces rather than duplicates (a subscription is created only after '
+                  'the look-up by session and token came out NULL and an entry for the same request was deleted); at least every sixth notification is Confirmable (NON only '
+                  'with non_cnt below COAP_OBS_MAX_NON, NON_ALWAYS or the final 4.04, and the counter reset / incremented to match the type before transmission); a Reset that '
+                  'matches a queued notification cancels the observer. Freshness and ordering of Observe values, eventual notification of the last state and the other '
+                  'deregistration routes are temporal properties over histories and are not decided.',
+             design='6 C11'),
  'C07': dict(technique='path-sensitive typestate over handle_response(): duplicate-arm / handler / emission-count / verdict agreement (R-RESP)',
              text='Decides four structural clauses that the statement of C07 names, on every path of handle_response(): a duplicate Confirmable response is answered '
                   'again exactly once and never re-delivered (and its message id is recorded before delivery); after the handler exactly one ACK or RST is sent for the '
@@ -114,7 +121,6 @@ CHECKS = {
              design='6 C17'),
 }
 NA = {
- 'C11': 'freshness, ordering and never-after-cancel of notifications are temporal properties over histories; a who-may-write rule on the observe counter would fire on behaviour-preserving refactorings',
 }
 ALL = ['C%02d' % i for i in range(1, 21)]
 def main():
